@@ -332,16 +332,13 @@ func one(raw json.RawMessage) interface{} {
 		os.RemoveAll(scratch)
 		os.Exit(2)
 	}
-	if os.Getenv("TESTSMELL_KEEP") != "" {
-		// development aid: keep the rendered tree
-		fmt.Fprintln(os.Stderr, "kept:", root)
-	}
 	if c.Input.Via == "cli" {
 		viaCLI(scratch, root, &rec.Observed)
 	} else {
 		viaAPI(scratch, root, &rec.Observed)
 	}
 	if os.Getenv("TESTSMELL_KEEP") != "" {
+		// development aid: keep the rendered tree next to the scratch directory
 		os.Rename(scratch, scratch+"-kept")
 	}
 	return rec
